@@ -71,6 +71,25 @@ def gen(chk):
         cases.append(('"before".p\nr := "' + es + '"\n"after".p\n', exp, "arity:embstr/%d" % n))
     for name, body in FIXED:
         cases.append((body + "\n", None, "fixed:" + name))
+    # equality of containers whose values define `==` themselves: the hooks run in key order (sorted names for objects,
+    # insertion order for maps, positions for arrays), never in hash-table order
+    names = ["kj", "ka", "kf", "kc", "kh", "kb", "kg", "kd", "ki", "ke", "_y", "_x"]
+    hook = "T := {'==: m{|o| t(.n); true}}\n"
+    a = "{" + ", ".join("%s: T.bear({n: %d})" % (k, 1 + sorted(names[:10]).index(k) if not k.startswith("_") else 11 + sorted(names[10:]).index(k))
+                        for k in names) + "}"
+    b = "{" + ", ".join("%s: T.bear({n: 0})" % k for k in reversed(names)) + "}"
+    exp12 = "".join("%d\n" % i for i in range(1, 13))
+    cases.append((hook + "r := (%s == %s)\nr.p\n" % (a, b), exp12 + "true\n", "eqhooks:obj"))
+    keys = ['"z"', "3", '"a"', "nil", "1.5", "true", "7", '"m"', "-2", '"b"', "0"]
+    ma = "%{" + ", ".join("%s: T.bear({n: %d})" % (k, i + 1) for i, k in enumerate(keys)) + "}"
+    mb = "%{" + ", ".join("%s: T.bear({n: 0})" % k for k in reversed(keys)) + "}"
+    cases.append((hook + "r := (%s == %s)\nr.p\n" % (ma, mb), "".join("%d\n" % i for i in range(1, 12)) + "true\n", "eqhooks:map"))
+    cases.append((hook + "r := ([%s, [%s]] == [%s, [%s]])\nr.p\n" % (a, ma, b, mb),
+                  exp12 + "".join("%d\n" % i for i in range(1, 12)) + "true\n", "eqhooks:nested"))
+    cases.append((hook + "r := [%s, %s].has?(%s)\nr.p\n" % ("{q: 1}", a, b), exp12 + "true\n", "eqhooks:has"))
+    # a variable call is a call: its arguments are evaluated once, in order (they are dropped today: open finding)
+    cases.append(('"before".p\nr := 1.^f3(t(1), t(2))\n"after".p\n', "before\n1\n2\nafter\n", "varcall-args"))
+    cases.append(('"before".p\nr := [1, 2]@^idf(t(1))\n"after".p\n', "before\n1\nafter\n", "varcall-args"))
     rng.setstate(st)
     n = 300 if chk.tier == "quick" else 3000
     for _ in range(n):
@@ -130,7 +149,9 @@ def main(chk):
     chk.cov["runs"] = runs
     chk.cov["rule"] = ("every construct template of C07 with a marker-printing helper in every hole (no raise), arities 1..4 of "
                        "array/arguments/unpacking/keyword arguments/object/map/embedded string, duplicate keys and keywords, `**` unpacking, "
-                       "objects and maps with 10-11 keys (beyond Go's 8-entry bucket) iterated/printed/compared/unpacked, seeded random "
+                       "objects and maps with 10-11 keys (beyond Go's 8-entry bucket) iterated/printed/compared/unpacked, equality of objects / maps / "
+                       "nested arrays / has? whose 11-12 values define `==` themselves (hooks must run in key order), variable calls with "
+                       "arguments (open finding), seeded random "
                        "nestings to depth 3; each program evaluated %d times in one process and in %d further process(es); all runs must "
                        "agree with each other, with source order (marker oracle) and with PanCore. stdin-reading sub-expressions (`<>`) "
                        "are not modelled and not generated." % (R, P))
